@@ -431,7 +431,7 @@ hs_na = Literal('NA').setParseAction( \
 # literal: we cannot support implicit NULLs as they are ambiguous.
 hs_list = GenerateMatch( \
     lambda ver: Group(Or([ \
-        Suppress(Regex(r'[ *]')), \
+        Suppress(Regex(r'\[ *\]')), \
         And([ \
             Suppress(Regex(r'\[ *')), \
             Optional(DelimitedList( \
@@ -506,7 +506,7 @@ def to_dict(tokenlist):
 
 hs_dict = GenerateMatch(
     lambda ver: Or([
-        Suppress(Regex(r'[ *]')),
+        Suppress(Regex(r'{ *}')),
         And([
             Suppress(Regex(r'{ *')),
             hs_tags[ver],
